@@ -584,6 +584,16 @@ def packet_sequence(g, n, ex9, ex10, self_delimiting=True):
                     sets.append(e.tmpl_set(ts))
                 else:
                     sets.append(e.data(r.choice(known)))
+            if proto == "ipfix" and r.random() < 0.12:
+                # a last set whose length word runs past the end of the message (the message, delivered alone, is
+                # reported without it): what follows in the buffer belongs to the next packet, never to this set
+                known = list(e.tm.keys())
+                if known and r.random() < 0.7:
+                    ds = e.data(r.choice(known))
+                else:
+                    ds = g.set_(2, b16(r.choice([700, 701])) + b16(2) + b16(8) + b16(4) + b16(12) + b16(4))
+                k = r.randrange(1, max(2, min(9, len(ds) - 3)))
+                sets.append(ds[:len(ds) - k])
             pks.append((9 if proto == "v9" else 10, e.packet(sets)))
     return pks
 
